@@ -19,11 +19,14 @@ func init() {
 		ID:    "C16",
 		Title: "Packet type dispatch follows the first byte and header flags are preserved",
 		Level: "exploration",
-		Rule: "complete enumeration of all 256 first bytes x the bodies valid for the selected type taken from the specification encoder (minimal, rich, remaining length 0 where the type allows, every short form; for PUBLISH the body matches the QoS bits of that first byte: packet identifier present for QoS 1/2, absent for 0 and for the reserved combination 3), and every frame of the valid corpus V (~2.7k frames, one per field shape) under every flag nibble that keeps its body valid; every frame is read through ten reader implementations (scripted, bufio 16/4096/pre-filled, own type with Peek/Discard, LimitedReader, own type with an unrelated Len() method, bytes.Buffer, bytes.Reader, strings.Reader). " +
+		Rule: "complete enumeration of all 256 first bytes x the bodies valid for the selected type taken from the specification encoder (minimal, rich, remaining length 0 where the type allows, every short form; for PUBLISH the body matches the QoS bits of that first byte: packet identifier present for QoS 1/2, absent for 0 and for the reserved combination 3), and every frame of the valid corpus V (~2.7k frames, one per field shape) under every flag nibble that keeps its body valid; the 256 x bodies frames also arrive byte by byte with idle reads in between and after runs of 99, 100 and 250 idle reads (100 and more: a rejection is acceptable, another type is not); every frame is read through ten reader implementations (scripted, bufio 16/4096/pre-filled, own type with Peek/Discard, LimitedReader, own type with an unrelated Len() method, bytes.Buffer, bytes.Reader, strings.Reader). " +
 			"Oracle: the dynamic type is the one selected by the upper nibble (0 yields Undefined whose Data() equals the body); a PUBLISH reports DUP, QoS and RETAIN of the lower nibble; for types 1-15 writing the decoded packet reproduces the same first byte. distinct_nontrivial = distinct (first byte, body) pairs.",
 		Assumptions: []string{"decoding must succeed for the body to be judged: bodies come from the valid-frame language"},
 		Run:         runC16,
 		Replay: func(c core.Case) *core.Finding {
+			if _, ok := c.Params["zero_before"]; ok {
+				return c16ExecPat(unhex(c.Frame), env.KRaw, &env.Pattern{Chunk: paramInt(c.Params, "chunk"), ZeroBefore: paramInt(c.Params, "zero_before")})
+			}
 			return c16Exec(unhex(c.Frame), env.Kind(paramInt(c.Params, "reader")))
 		},
 	})
@@ -86,6 +89,13 @@ func c16Bodies(t byte, flags byte) [][]byte {
 }
 
 func c16Exec(frame []byte, kind env.Kind) *core.Finding {
+	return c16ExecPat(frame, kind, nil)
+}
+
+// c16ExecPat: pat delivers the frame in segments with idle reads; with runs
+// of 100 and more idle reads a rejection is acceptable (a decoder may give up
+// on such a reader), a packet of another type never is.
+func c16ExecPat(frame []byte, kind env.Kind, pat *env.Pattern) *core.Finding {
 	resetGlobals()
 	fb := frame[0]
 	t := fb >> 4
@@ -93,9 +103,12 @@ func c16Exec(frame []byte, kind env.Kind) *core.Finding {
 		return &core.Finding{Class: class + "/" + bind.TypeNames[t] + "/" + kind.String(), Sig: map[string]string{"type": bind.TypeNames[t], "reader": kind.String()},
 			Detail: fmt.Sprintf("first byte %02x, frame %s read through %s: %s", fb, abbrevHex(frame), kind, what)}
 	}
-	p, err, res := readPacket(env.Wrap(kind, &env.Reader{Data: frame}), stepBudget(len(frame)))
+	p, err, res := readPacket(env.Wrap(kind, &env.Reader{Data: frame, Pat: pat}), stepBudget(len(frame)))
 	if res.Panic != "" || res.Budget {
 		return mk("decode-fails", "panic/budget: "+res.Panic)
+	}
+	if pat != nil && pat.ZeroBefore >= 100 && (err != nil || p == nil) {
+		return nil
 	}
 	if err != nil || p == nil {
 		return mk("decode-rejects", fmt.Sprintf("a body valid for the type is rejected: %v", err))
@@ -155,12 +168,29 @@ func runC16(x *core.Ctx) {
 			}
 		}
 	}
+	pats := []env.Pattern{{Chunk: 1, ZeroBefore: 1}, {Chunk: 1, ZeroBefore: 7}, {Chunk: 0, ZeroBefore: 99}, {Chunk: 0, ZeroBefore: 100}, {Chunk: 0, ZeroBefore: 250}}
+	for _, k := range Mined.NovelCounts {
+		if k > 2 && len(pats) < 14 {
+			pats = append(pats, env.Pattern{Chunk: 0, ZeroBefore: k})
+		}
+	}
 	for fb := 0; fb < 256; fb++ {
 		if !x.Mine() {
 			continue
 		}
 		for _, body := range c16Bodies(byte(fb>>4), byte(fb&15)) {
 			frame := reframe(byte(fb), body)
+			// slow readers: the type must not depend on how long the first byte took
+			for pi := range pats {
+				pat := pats[pi]
+				x.Eval("idle-reads")
+				if f := c16ExecPat(frame, env.KRaw, &pat); f != nil {
+					fr := frame
+					x.Report(f, func() core.Case {
+						return core.Case{Harness: "c16", Frame: hexOf(fr), Params: map[string]any{"reader": 0, "chunk": pat.Chunk, "zero_before": pat.ZeroBefore}}
+					}, func() *core.Finding { return c16ExecPat(fr, env.KRaw, &pat) })
+				}
+			}
 			x.Sample(fmt.Sprintf("type%d", fb>>4), 1, func() any { return hexOf(clipBytes(frame)) })
 			try(frame, fmt.Sprintf("type%d", fb>>4))
 		}
